@@ -7,14 +7,14 @@ import re
 HERE = os.path.dirname(os.path.abspath(__file__))
 
 BOUNDED = {
-    "C01": "iteration / `tolist`, `save/load` (A: `np.savez/np.load`), dtype matrix",
+    "C01": "`save/load` (A: `np.savez/np.load`), dtype matrix (iteration / `tolist` are proved for an arbitrary iteration index)",
     "C02": "end-to-end for selectors other than (row slice, column slice); column steps beyond the representatives of the e2e family only through the callee families",
     "C03": "end-to-end assignment for selectors / value kinds other than (row slice, column slice) = scalar",
     "C04": "numpy's result-dtype table, dtype matrix",
     "C05": "float / dtype matrix (`mean` is proved as sum / count over the callee contracts; float division uninterpreted)",
     "C06": "derived-vs-fresh comparison under every probe (representation independence end to end)",
     "C07": "`sort`, `unique`, `diff` values end to end; float accumulate is the known finding",
-    "C08": "`concatenate(axis=1)` (Python loop over rows), `_as_padded_matrix`",
+    "C08": "`concatenate(axis=1)` (Python loop over rows building a list of arrays), `ragged_slice` on 1-D / 2-D inputs, element types other than the abstract one for the padded matrix",
     "C09": "float / bool column-sum values (`mean(axis=0)` is proved as sum / col_counts over the callee contracts)",
     "C10": "differential histories (the history relation itself)",
     "C11": "histories against a dict (composition of the proved constructor invariant, lookup and assignment contracts is a paper argument)",
